@@ -887,11 +887,14 @@ class Executor(object):
             return
         old = st.ofields.get(attr) or self._ofield_base(st, attr, decl[attr])
         tgt_t = v.t
+        pre_ofields, pre_epoch = dict(st.ofields), st.epoch
 
         def upd(o, _old=old, _t=tgt_t, _val=val):
             return ite(o == _t, _val, _old(o))
         st.ofields[attr] = upd
-        st.trace.append(Event('setattr:' + attr, [v, val], {}, None, dict(st.ghost), 0, recv=v))
+        ev = Event('setattr:' + attr, [v, val], {}, None, dict(st.ghost), 0, recv=v)
+        ev.pre_ofields, ev.pre_epoch = pre_ofields, pre_epoch
+        st.trace.append(ev)
 
     def havoc_opaque_fields(self, st):
         """an opaque callee may have mutated any opaque object: forget the tracked fields (except `stable_fields`)"""
